@@ -359,6 +359,8 @@ def _poke(ctx: Ctx, ev: dict) -> None:
                 w.rec("cancel_sent", actor=a.aid, i=a.current)
         elif what == "force_disconnect":
             cli = ctx.client
+            if cli is None:
+                return  # the application dropped its client object
             conn = cli._connection
             w.rec("op_start", actor="poke", i=-1, do="force_disconnect", args={"has_conn": conn is not None})
             _rec_disc(ctx, cli, True)
@@ -632,6 +634,23 @@ async def _s_connect(ctx: Ctx, a: Actor, st: dict) -> Any:
 @step("start")
 async def _s_start(ctx: Ctx, a: Actor, st: dict) -> Any:
     await _cli(ctx, st).start_connection(on_stop=_user_on_stop(ctx, a.aid))
+
+
+@step("cmd")
+async def _s_cmd(ctx: Ctx, a: Actor, st: dict) -> Any:
+    """Any synchronous command method of the client by name (fire and forget)."""
+    kw = dict(st.get("kwargs", {}))
+    if st["name"] == "send_voice_assistant_audio":
+        kw["data"] = bytes.fromhex(kw.get("data", ""))
+    getattr(_cli(ctx, st), st["name"])(*st.get("args", []), **kw)
+
+
+@step("drop_client")
+async def _s_drop_client(ctx: Ctx, a: Actor, st: dict) -> Any:
+    """The application lets go of its APIClient object while the session lives on (the event loop keeps the
+    transport, the protocol and the connection alive)."""
+    ctx.clients.pop(st.get("client", "0"), None)
+    ctx.client = None
 
 
 @step("set_expected_name")
